@@ -3,5 +3,5 @@
 cd "$(dirname "$0")/.."
 for id in ${*:-C09 C10 C13 C14 C15 C16 C17 C20 C11 C19 C12 C18 C08 C01 C02 C03 C04 C05 C06 C07}; do
   T0=$(date +%s); OUT=$(./check $id --tier thorough 2>&1); RC=$?; T1=$(date +%s)
-  echo "=== $id thorough exit=$RC wall=$((T1-T0))s"; echo "$OUT" | grep -E "VIOLATION|INCONCLUSIVE|mechanism=|HELD|evaluations=" | cut -c1-400 | head -8
+  echo "=== $id thorough exit=$RC wall=$((T1-T0))s"; echo "$OUT" | grep -A14 -E "VIOLATION|INCONCLUSIVE|mechanism=|HELD|evaluations=" | cut -c1-400 | head -40
 done
